@@ -6,3 +6,4 @@ import OxyModel.Props.C17
 #print axioms C17.C17_ages_out
 #print axioms C17.C17_ratio
 #print axioms C17.C17_ratio_empty
+#print axioms C17.C17_clone_independent
